@@ -621,9 +621,38 @@ def r8(ctx):
             ok = not always_passes(b, sites)
             ctx.inst(R, f"restore:{kid}<-{gid}", ok, b.term(sites[0])["s"], "restored on every path of the guard's drop" if ok else
                      f"`{gid}` restores `{kid}` only on some paths: when there was no outer value the thread-local keeps pointing at this host's state after the guard is gone")
+            # ... and what is written back is what the guard saved when it was built (a field of the guard), not a constant: scopes nest.
+            # Only for guards that save at all (they carry `prev*` fields; a guard of a non-nesting scope legitimately writes None back)
+            gty = gid[1:].split(" as ", 1)[0]
+            ga = ctx.w.adts.get(gty) or ctx.w.adts.get(gty.split("<")[0]) or {}
+            if not any("prev" in (f.get("name") or "") for v in ga.get("variants", []) for f in v["fields"]):
+                continue
+            saved = False
+            for bb, t in withs:
+                if bb not in sites:
+                    continue
+                for cid in closure_args(b, t):
+                    for fb in ctx.w.family(cid):
+                        for bb2, t2 in fb.calls(re.compile(r"^std::cell::Cell::(set|replace)$|^std::option::Option::take$|RefCell::(replace|borrow_mut)$|^std::mem::replace$")):
+                            at = set()
+                            for a in t2["args"]:
+                                at |= Slicer(ctx.w).atoms(fb, a)
+                            if any(a.startswith("field:" + gty + "::") or a.startswith("field:" + gty.split("<")[0] + "::") for a in at):
+                                saved = True
+                        for bb2, i2, s2 in fb.all_stmts():
+                            if i2 != "term":
+                                at = set()
+                                for o in [s2["r"].get("o"), s2["r"].get("a"), s2["r"].get("b")] + list(s2["r"].get("ops", [])):
+                                    if isinstance(o, dict):
+                                        at |= Slicer(ctx.w).atoms(fb, o)
+                                if any(a.startswith("field:" + gty.split("<")[0] + "::") for a in at):
+                                    saved = True
+            ctx.inst(R, f"restore-saved-value:{kid}<-{gid}", saved, b.term(sites[0])["s"], "the guard writes back the value it saved" if saved else
+                     f"`{gid}` does not write back a value it saved (no field of the guard reaches `{kid}`): leaving a nested scope clears the outer scope's value instead of "
+                     "restoring it - for the corruption hook, every later corruption of the host step is reported to no barrier")
     k = scoped_cell_writers(ctx, R)
     ctx.inst(R, "scoped-cell:found", k >= 2, "", f"{k} accessors of guard-managed Cell thread-locals analysed" if k >= 2 else "fewer than 2 accessors of guard-managed Cell thread-locals found: re-derive")
-    ctx.floor(R, 5)
+    ctx.floor(R, 7)
 
 
 CELL_WRITE = re.compile(r"^std::cell::Cell::(set|take|replace|swap|update)$|^std::thread::LocalKey::(set|take|replace)$")
